@@ -17,8 +17,8 @@ CLAIMS = {
  "C07": dict(text="Deductive: Body.read/readline/readlines/__next__ are proved to implement binary-file semantics (exact result window, cursor advance, EOF forever via cursor==end) over an abstract reader for ALL bodies, cursors, buffered prefixes and sizes (None, negative, 0, any int), with Houdini-selected loop invariants over the 1024-byte refill loops; LengthReader.read is proved to implement that abstract reader over the ghost stream and to push back exactly the surplus (next request starts at the first byte after the body); Unreader.read/unread carry the position. ChunkedReader as a reader and Parser.__next__'s drain loop are covered by the bounded stand-in (12k call-program x framing x segmentation cases against io.BytesIO and a pipelined next request).",
              note="trusted: abstract reader interface for Body (discharged for LengthReader, bounded for ChunkedReader), bodies shorter than sys.maxsize, BytesIO model (append mode + position 0 of BytesIO(initial))",
              technique="contract-based deductive verification (representation invariant + exact postconditions, z3) + bounded stand-in", ref="4 C07"),
- "C12": dict(text="Deductive: Request.read_line is proved sound AND complete for the request-line limit (LimitRequestLine raised iff the line - first CRLF, or the rest of the stream if none - exceeds the limit, for every segmentation; NoMoreData otherwise), parse_headers never returns more than limit_request_fields fields and counts every field line (also dropped ones, defect fixed in /repo 11d7eb4), every kept field line is within limit_request_field_size, the header-block buffer bound in Request.parse is independent of segmentation (defect fixed in 8186d0d). 'Within limits => not rejected for size' and the boundary values are decided by the bounded stand-in on explicit small limits at, just under and just over each boundary. No bound exists in the code for chunk-size lines / trailer blocks: not claimed.",
-             note="same trusted base as C01; completeness direction ('within limits => accepted') for header limits is bounded only; no bound exists for chunk-size lines / trailer blocks (not claimed)",
+ "C12": dict(text="Deductive: Request.read_line is proved sound AND complete for the request-line limit (LimitRequestLine raised iff the line - first CRLF, or the rest of the stream if none - exceeds the limit, for every segmentation; NoMoreData otherwise), parse_headers never returns more than limit_request_fields fields and counts every field line (also dropped ones, defect fixed in /repo 11d7eb4), every kept field line is within limit_request_field_size, the header-block buffer bound in Request.parse is independent of segmentation (defect fixed in 8186d0d). 'Within limits => not rejected for size' and the boundary values are decided by the bounded stand-in on explicit small limits at, just under and just over each boundary. Chunk-size lines (with extensions) are bounded by limit_request_line and trailer sections by the header buffer limit, proved as postconditions that depend on the stream only (the missing bounds were a genuine defect, found by the endless-source stand-in buffer_bound and fixed in /repo 15df81f).",
+             note="same trusted base as C01; completeness direction ('within limits => accepted') for header limits is bounded only",
              technique="contract-based deductive verification (two-sided raise conditions) + bounded boundary-value stand-in", ref="4 C12"),
 }
 extra = {}
